@@ -623,6 +623,8 @@ impl Search {
                 return true;
             }
         }
+        #[cfg(rce_verif)]
+        let start = verif::clock(start);
         if let Some(movetime) = self.limits.movetime {
             if start.elapsed().as_millis() >= movetime {
                 self.running.store(false, Ordering::Relaxed);
